@@ -3,6 +3,7 @@ package sim
 import (
 	stded "crypto/ed25519"
 	"fmt"
+	"strings"
 
 	"github.com/tendermint/tendermint/consensus"
 	tmproto "github.com/tendermint/tendermint/proto/tendermint/types"
@@ -133,6 +134,36 @@ func (m *Monitor) holds(j int, id types.BlockID, before int) bool {
 	return uint32(len(got)) == id.PartSetHeader.Total
 }
 
+// holdsBlock: the node holds "that block" if it holds every part of it under the part-set header of the vote OR under
+// the header of any proposal for the same block hash that reached it (a faulty proposer may serialise one block in
+// two ways; the block is the same, C02 speaks of the block).
+func (m *Monitor) holdsBlock(j int, id types.BlockID, before int) bool {
+	if m.holds(j, id, before) {
+		return true
+	}
+	try := func(p *Packet) bool {
+		pm, ok := p.Msg.(*consensus.ProposalMessage)
+		if !ok || string(pm.Proposal.BlockID.Hash) != string(id.Hash) || pm.Proposal.BlockID.PartSetHeader.Equals(id.PartSetHeader) {
+			return false
+		}
+		return m.holds(j, pm.Proposal.BlockID, before)
+	}
+	for _, d := range m.net.Deliveries[j] {
+		if d.Event >= before {
+			break
+		}
+		if try(d.Pkt) {
+			return true
+		}
+	}
+	for _, p := range m.net.Pool {
+		if !p.Byz && p.From == j && p.Kind == "proposal" && try(p) {
+			return true
+		}
+	}
+	return false
+}
+
 // Check examines every signature released since the last call; returns a violation description or "".
 func (m *Monitor) Check() string {
 	for _, j := range m.net.Order {
@@ -160,7 +191,7 @@ func (m *Monitor) Check() string {
 				if !above23(t[rec.BlockID.Key()], total) {
 					return fmt.Sprintf("node %d precommitted block %X in h=%d r=%d having received prevotes for it worth only %d of %d", j, rec.BlockID.Hash[:4], rec.H, rec.R, t[rec.BlockID.Key()], total)
 				}
-				if !m.holds(j, rec.BlockID, rec.Event) {
+				if !m.holdsBlock(j, rec.BlockID, rec.Event) {
 					return fmt.Sprintf("node %d precommitted block %X in h=%d r=%d without holding all of its parts", j, rec.BlockID.Hash[:4], rec.H, rec.R)
 				}
 			case "prevote":
@@ -178,7 +209,8 @@ func (m *Monitor) Check() string {
 				if lock == nil {
 					continue
 				}
-				if rec.BlockID.Equals(lock.BlockID) {
+				if string(rec.BlockID.Hash) == string(lock.BlockID.Hash) {
+					// the same block (C02 speaks of the block; the part-set header only names one of its serialisations)
 					m.Stats.LockedPrevotes++
 					continue
 				}
@@ -186,7 +218,7 @@ func (m *Monitor) Check() string {
 				for r2 := lock.R + 1; r2 <= rec.R && !justified; r2++ {
 					t, total := m.tally(j, rec.H, r2, tmproto.PrevoteType, rec.Event)
 					for key, p := range t {
-						if key != lock.BlockID.Key() && above23(p, total) {
+						if !strings.HasPrefix(key, string(lock.BlockID.Hash)) && above23(p, total) {
 							justified = true
 						}
 					}
